@@ -558,7 +558,7 @@ func runC13(c *core.Ctx) {
 	importObligations(c, runC17, "R7", func(o *core.Obligation) bool { return o.Rule == "R6" })
 	// CloseAll closes the channels one after the other: a Close that can block on itself stalls the rest
 	c.Rule("R8", "Channel.Close elects its one effective call by a CAS; every other call returns at once (shared with C05-R1/R3)", 2)
-	importObligations(c, runC05, "R8", func(o *core.Obligation) bool { return o.Rule == "R1" || o.Rule == "R3" })
+	importObligations(c, runC05, "R8", func(o *core.Obligation) bool { return o.Rule == "R1" || o.Rule == "R3" || o.Rule == "R7" })
 
 	runC13Listener(c, e, br, serverClosed)
 }
@@ -687,6 +687,43 @@ func runC13Listener(c *core.Ctx, e *ev, br *bsRoles, serverClosed *ssa.Global) {
 						closedSideCloses = true
 					}
 				}
+			}
+		}
+		// "not-closed side" means the closed flag is known to be false where the acceptor is stored: the else side of
+		// `closed && cancelled` does not establish that
+		if observes && br.lclosedF != nil {
+			established := false
+			for _, f := range knownBools(st) {
+				if _, isPhi := f.V.(*ssa.Phi); isPhi {
+					continue
+				}
+				if !condInvolvesField(f.V, br.lclosedF) {
+					continue
+				}
+				switch x := f.V.(type) {
+				case *ssa.BinOp:
+					// closed == false / closed != true known true, closed == true known false ...
+					k, isC := x.Y.(*ssa.Const)
+					if !isC {
+						k, isC = x.X.(*ssa.Const)
+					}
+					if isC && isBool(k.Type()) {
+						val := constBool(k)
+						eq := x.Op == token.EQL
+						// the comparison's truth tells the flag's value
+						flag := (eq == f.Truth) == val
+						if !flag {
+							established = true
+						}
+					}
+				default:
+					if !f.Truth {
+						established = true
+					}
+				}
+			}
+			if !established {
+				observes = false
 			}
 		}
 		c.Check(observes, "R4", name+"/observes-closed", p.InstrPos(st), "the acceptor is published only on the not-closed side of a test of the closed flag / bootstrap context", "the acceptor is published without testing whether the listener was closed or the bootstrap shut down (Listen().Async() followed by Shutdown leaves a live acceptor)")
